@@ -235,7 +235,7 @@ def fixed_cases():
             "_pymoca_delay_0": [F(-1)]}]
     txt2 = ("function f\n  input Real a;\n  input Real c;\n  output Real b;\nalgorithm\n  b := a * a + c;\nend f;\n"
             "model M\n  Real x[4];\n  Real y[4];\n  parameter Real p = 2;\nequation\n  for i in 2:3 loop\n"
-            "    y[i] = f(x[i], p) - 3 * f(x[i+1], p) + 5 * f(x[i-1], p);\n  end for;\n  y[1] = f(x[1], 1) - f(x[2], 1);\n  y[4] = 0;\n"
+            "    y[i] = f(x[i], p) - 3 * f(x[i+1], p) + 5 * f(x[i-1], p) + i * p;\n  end for;\n  y[1] = f(x[1], 1) - f(x[2], 1);\n  y[4] = 0;\n"
             "  for j in 1:4 loop\n    x[j] = f(y[5-j], j) + 2 * f(y[j], j);\n  end for;\nend M;\n")
     pts2 = [{"time": [F(0)], "x": [F(1), F(2), F(3), F(-1)], "y": [F(0), F(1, 2), F(4), F(-2)], "p": [F(2)]},
             {"time": [F(1)], "x": [F(-3), F(1, 2), F(0), F(2)], "y": [F(1), F(1), F(-1), F(3)], "p": [F(-1)]}]
@@ -245,7 +245,23 @@ def fixed_cases():
             "equation\n  der(x0) = g(y0, p0);\n  y0 = x0 + c0;\n  for i in 1:2 loop\n    v[i] = g(x0, i) * c0;\n  end for;\nend M;\n")
     pts3 = [{"time": [F(0)], "p0": [F(3)], "p1": [F(-2)], "c0": [F(5)], "x0": [F(1)], "der(x0)": [F(0)], "y0": [F(2)], "v": [F(1), F(1)]},
             {"time": [F(0)], "p0": [F(1, 2)], "p1": [F(4)], "c0": [F(-1)], "x0": [F(2)], "der(x0)": [F(1)], "y0": [F(0)], "v": [F(0), F(3)]}]
-    return [{"text": txt3, "name": "M", "points": pts3, "ranges": {}, "features": ["for-equation", "function"]},
+    txt4 = ("function mesh\n  input Real a;\n  input Real ratio;\n  output Real b;\nalgorithm\n  b := a * ratio + 1;\nend mesh;\n"
+            "model M\n  parameter Integer n = 3;\n  parameter Integer teeth = 4;\n  parameter Real p = 2;\n  Real w[n];\n  Real x;\n"
+            "initial equation\n  x = teeth * p;\nequation\n  w[1] = x * n;\n  for i in 2:n loop\n    w[i] = mesh(w[i-1], teeth / 2) + n;\n  end for;\n"
+            "  der(x) = delay(x + teeth, p) - n;\nend M;\n")
+    pts4 = [{"time": [F(0)], "n": [F(5)], "teeth": [F(8)], "p": [F(1)], "w": [F(1), F(2), F(-1)], "x": [F(2)], "der(x)": [F(1)],
+             "_pymoca_delay_0": [F(3)]},
+            {"time": [F(1)], "n": [F(3)], "teeth": [F(2)], "p": [F(4)], "w": [F(0), F(1), F(2)], "x": [F(-1)], "der(x)": [F(0)],
+             "_pymoca_delay_0": [F(1)]}]
+    txt5 = ("function horner\n  input Real t;\n  input Real c;\n  output Real p;\n  output Real dp;\nalgorithm\n  p := c;\n  dp := 0;\n"
+            "  for i in 1:3 loop\n    dp := dp * t + p;\n    p := p * t + c * i;\n  end for;\nend horner;\n"
+            "model M\n  Real x[3];\n  Real y;\n  Real z;\n  parameter Real q = 2;\nequation\n  (y, z) = horner(x[1], q);\n"
+            "  for i in 1:3 loop\n    x[i] = horner(y * i, q);\n  end for;\nend M;\n")
+    pts5 = [{"time": [F(0)], "x": [F(2), F(1), F(-1)], "y": [F(3)], "z": [F(1)], "q": [F(3)]},
+            {"time": [F(0)], "x": [F(1, 2), F(0), F(4)], "y": [F(-2)], "z": [F(0)], "q": [F(-1)]}]
+    return [{"text": txt5, "name": "M", "points": pts5, "ranges": {}, "features": ["for-equation", "function"]},
+            {"text": txt4, "name": "M", "points": pts4, "ranges": {}, "features": ["for-equation", "function"]},
+            {"text": txt3, "name": "M", "points": pts3, "ranges": {}, "features": ["for-equation", "function"]},
             {"text": txt, "name": "M", "points": pts, "ranges": {}, "features": ["for-equation", "function"]},
             {"text": txt2, "name": "M", "points": pts2, "ranges": {}, "features": ["for-equation", "function"]}]
 
